@@ -273,6 +273,8 @@ Definition check_item (c : bctx) (s : stmt) : bool :=
   end.
 Definition check_body (c : bctx) (l : list stmt) : bool := forallb (check_item c) l.
 
+Definition starts_bang (t : bytes) : bool := match t with c :: _ => c =? 33 | [] => false end.
+
 (* ---- handle_item ---- *)
 Definition bind {A B} (r : res A) (f : A -> res B) : res B :=
   match r with Ok a => f a | Err e => Err e | OutOfFuel => OutOfFuel | Outside => Outside end.
@@ -298,7 +300,8 @@ Fixpoint eval_item (fuel : nat) (mixins : list (list stmt)) (compressed : bool)
     | SDecl name v =>
         with_frames st (push_property (d_frames st) (d_root st) name (same_leaf v))
     | SComment t =>
-        if compressed then Ok st
+        (* commit 775eadf: when compressed only comments starting with `!` are kept *)
+        if compressed && negb (starts_bang t) then Ok st
         else let (fs, root) := push_comment (d_frames st) (d_root st) (IComment t) in
              Ok (mkD fs root (d_lost st))
     | SRule sels b =>
